@@ -28,15 +28,24 @@ func verifSymOCRAInput() *ocraInput {
 	return &ocraInput{CounterHex: verifASCII("in.c", 2), ChallengeHex: verifASCII("in.q", 2), PasswordHex: "", SessionInfoHex: "", TimestampHex: verifASCII("in.t", 2)}
 }
 
+// any period; counterexample models prefer one that differs from the default (a stale or
+// shared period then shows in the native probe sequence)
+func verifSymPeriod() uint {
+	p := verifUint("period")
+	verifPrefer(verifAnd(p >= 31, p <= 90))
+	return p
+}
+
 // the request body for a path (any field values), or nil
 func verifBodyFor(path string) any {
 	switch path {
 	case "/totp/generate", "/hotp/generate":
-		return otpGenerateReq{Secret: verifASCII("secret", 2), Timestamp: verifI64("timestamp"), Counter: verifU64("counter"), Digits: verifDigitsText[verifCase("dt")], Period: verifUint("period"), Algorithm: verifAlgText[verifCase("at")]}
+		return otpGenerateReq{Secret: verifASCII("secret", 2), Timestamp: verifI64("timestamp"), Counter: verifU64("counter"), Digits: verifDigitsText[verifCase("dt")], Period: verifSymPeriod(), Algorithm: verifAlgText[verifCase("at")]}
 	case "/totp/validate", "/hotp/validate":
 		skew := verifUint("skew")
+		verifPrefer(skew >= 1)
 		verifAssume(verifOr(skew <= uint(verifCase("maxskew")), skew > 10)) // windows maxskew+1..10: thorough tier
-		return otpValidateReq{Secret: verifASCII("secret", 2), Timestamp: verifI64("timestamp"), Counter: verifU64("counter"), Code: verifASCII("code", 6), Digits: verifDigitsText[verifCase("dt")], Period: verifUint("period"), Skew: skew, Algorithm: verifAlgText[verifCase("at")]}
+		return otpValidateReq{Secret: verifASCII("secret", 2), Timestamp: verifI64("timestamp"), Counter: verifU64("counter"), Code: verifASCII("code", 6), Digits: verifDigitsText[verifCase("dt")], Period: verifSymPeriod(), Skew: skew, Algorithm: verifAlgText[verifCase("at")]}
 	case "/ocra/generate":
 		return ocraGenerateReq{Secret: verifASCII("secret", 2), RawSuite: verifRawSuiteText(), Suite: verifSymSuite(), Input: verifSymOCRAInput()}
 	case "/ocra/validate":
@@ -44,7 +53,7 @@ func verifBodyFor(path string) any {
 	case "/ocra/suite":
 		return suiteConfigReq{RawSuite: verifRawSuiteText()}
 	case "/otp/url":
-		return otpURLGenerateReq{Type: []string{"totp", "hotp", "x"}[verifCase("dt")%3], Secret: verifASCII("secret", 2), Issuer: verifASCII("issuer", 1), AccountName: verifASCII("account", 1), Period: verifUint("period"), Digits: verifDigitsText[verifCase("dt")], Algorithm: verifAlgText[verifCase("at")]}
+		return otpURLGenerateReq{Type: []string{"totp", "hotp", "x"}[verifCase("dt")%3], Secret: verifASCII("secret", 2), Issuer: verifASCII("issuer", 1), AccountName: verifASCII("account", 1), Period: verifSymPeriod(), Digits: verifDigitsText[verifCase("dt")], Algorithm: verifAlgText[verifCase("at")]}
 	}
 	return nil
 }
@@ -99,7 +108,12 @@ func verifH_C19_chain() {
 	verifAssert(bodySets >= 1, "a-body-is-sent")
 	if verifSymbolic() {
 		verifAssert(statusSets >= 1 || status == 200, "status-decided-by-the-handler")
+		// ... and continues to answer subsequent well-formed requests correctly: a request that
+		// writes nothing a later request can read leaves every later answer what it is on a fresh
+		// process (decided for single requests in C18)
 		verifAssert(verifFrameViolations() == 0, "request-writes-no-shared-state")
+	} else if verifNative() {
+		verifNativeProbes()
 	}
 	routed := path != "/nope"
 	rightMethod := (method == "POST") == !(path == "/ocra/suites" || path == "/otp/secret" || path == "/")
